@@ -102,6 +102,7 @@ def run(chk):
     chk.guard(r04_1_other_components, chk)
     chk.guard(r04_3_4_tables, chk)
     chk.guard(r04_6_emitters, chk)
+    chk.guard(r04_8_one_field_per_attribute, chk)
     from ._layout import transport_integrity
     chk.guard(transport_integrity, chk, "R04.7")
 
@@ -524,11 +525,50 @@ def r04_3_4_tables(chk):
 
 
 # ---------------------------------------------------------------------------------------------------- R04.6
+def r04_8_one_field_per_attribute(chk):
+    """The template (one label per attribute) and every object (one component per label) are generated from the
+    Attribute objects found among the instance's fields: an Attribute reachable under two field names (an alias such as
+    `self.type = self._type`) is written twice - the label is duplicated and every object carries two components for one
+    attribute.  Decided on the constructors' summaries: no field of an item is assigned the value of another field that
+    holds an attribute declaration, and no attribute construction is stored twice."""
+    from ..terms import SELF, pp
+    ix = chk.ix
+    model = Model(ix)
+    n = 0
+    for ic in sorted(model.item_classes, key=lambda c: c.name):
+        init = ic.methods.get("__init__")
+        if init is None:
+            continue
+        fields = {d.field for d in model.decls_of(ic)}
+        summ = chk.terms.summary(init)
+        seen_values = {}
+        for e in summ.effects:
+            if e.kind != "store_attr" or e.base != SELF:
+                continue
+            n += 1
+            v = e.value
+            alias = v[0] == "attr" and v[1] == SELF and v[2] in fields and v[2] != e.key
+            chk.require(not alias, "R04.8", f"attribute-alias:{ic.name}.{e.key}",
+                        f"{ic.name}.{e.key} is another name for the attribute object in `{pp(v)}`: that attribute is "
+                        f"written twice (duplicate label in the template, two components per object)", e.where,
+                        nontrivial=False)
+            if e.key in fields and v[0] == "call":
+                prev = seen_values.get(v)
+                chk.require(prev is None or prev == e.key, "R04.8", f"attribute-stored-twice:{ic.name}.{e.key}",
+                            f"the attribute built by `{pp(v)[:60]}` is stored under {prev} and {e.key}", e.where,
+                            nontrivial=False)
+                seen_values.setdefault(v, e.key)
+    chk.floor("instance-field stores in item constructors", n, 100)
+
+
 def r04_6_emitters(chk):
     """The length prefixes of IDENT / ASCII fields count exactly the bytes that follow (otherwise the rest of the set
     cannot be parsed): the obligations of C06 R06.3, re-stated for the component grammar."""
     from . import c06
     n0 = len(chk.obs)
     c06.r06_3_ident_ascii(chk)
+    # ... and the variable-length integers (counts, dimensions, origin / copy numbers, ASCII lengths): a reader decides
+    # the width from the two top bits, so each range must be written in exactly its own form (C06 R06.2)
+    c06.r06_2_uvari(chk)
     for o in chk.obs[n0:]:
         o.rule = "R04.6"
